@@ -527,11 +527,177 @@ async fn poll_case(rep: &mut Report, tr: Transport, rcvtimeo: i32, wave: usize, 
   let _ = tokio::time::timeout(Duration::from_secs(12), ctx.term()).await;
 }
 
+/// (replace) the peer behind an identity goes away and ANOTHER peer with a different identity takes its place - on the
+/// same endpoint the ROUTER reconnects to (ROUTER as connector), or as a new connection (ROUTER as binder). A message
+/// addressed to the old identity must go to nobody (HostUnreachable with ROUTER_MANDATORY, silently dropped without),
+/// a message addressed to the new identity must arrive, and nothing addressed to the old identity may show up at the
+/// new peer.
+async fn replace_case(rep: &mut Report, tr: Transport, router_connects: bool, peer_kind: SocketType, mandatory: bool) {
+  let ctx = util::new_ctx();
+  let router = ctx.socket(SocketType::Router).unwrap();
+  util::set_i32(&router, opt::RCVTIMEO, 3000 * util::slow_factor() as i32).await;
+  util::set_i32(&router, opt::SNDTIMEO, 1500).await;
+  util::set_i32(&router, opt::RECONNECT_IVL, 50).await;
+  router.set_option(opt::ROUTER_MANDATORY, mandatory).await.unwrap();
+  if peer_kind == SocketType::Router {
+    router.set_option_raw(opt::ROUTING_ID, b"the-router").await.unwrap();
+  }
+  let cfg = format!("ROUTER ({}, ROUTER_MANDATORY={}) over {} with a {} peer replaced by another one", if router_connects { "connector" } else { "binder" }, mandatory, tr.name(), util::socket_type_name(peer_kind));
+  let mk = |ctx: rzmq::Context, id: &'static [u8]| async move {
+    let p = ctx.socket(peer_kind).unwrap();
+    p.set_option_raw(opt::ROUTING_ID, id).await.unwrap();
+    util::set_i32(&p, opt::RCVTIMEO, 1200).await;
+    util::set_i32(&p, opt::SNDTIMEO, 1500).await;
+    util::set_i32(&p, opt::LINGER, 0).await;
+    p
+  };
+  // first incarnation
+  let ctx1 = util::new_ctx();
+  let p1 = mk(ctx1.clone(), b"server-one").await;
+  let ep = if router_connects {
+    let ep = match util::bind_fresh(&p1, tr).await {
+      Ok(e) => e,
+      Err(e) => {
+        rep.inconclusive(format!("bind: {e}"));
+        return;
+      }
+    };
+    let _ = router.connect(&ep).await;
+    ep
+  } else {
+    let ep = match util::bind_fresh(&router, tr).await {
+      Ok(e) => e,
+      Err(e) => {
+        rep.inconclusive(format!("bind: {e}"));
+        return;
+      }
+    };
+    let _ = p1.connect(&ep).await;
+    ep
+  };
+  // the peer introduces itself; the ROUTER must report "server-one"
+  let hello = |from: &'static [u8]| -> Vec<rzmq::Msg> {
+    if peer_kind == SocketType::Router { msgs(&[b"the-router".to_vec(), [b"hello-from-".to_vec(), from.to_vec()].concat()]) } else { msgs(&[[b"hello-from-".to_vec(), from.to_vec()].concat()]) }
+  };
+  let mut intro_ok = false;
+  for _ in 0..40 {
+    if p1.send_multipart(hello(b"server-one")).await.is_ok() {
+      if let Ok(m) = router.recv_multipart().await {
+        let v = to_vecs(m);
+        intro_ok = v.first().map(|f| f.as_slice()) == Some(b"server-one");
+        break;
+      }
+    }
+    tokio::time::sleep(Duration::from_millis(50)).await;
+  }
+  if !intro_ok {
+    rep.inconclusive(format!("{}: the first peer never got through", cfg));
+    let _ = tokio::time::timeout(Duration::from_secs(10), ctx.term()).await;
+    let _ = tokio::time::timeout(Duration::from_secs(10), ctx1.term()).await;
+    return;
+  }
+  // it goes away
+  let _ = p1.close().await;
+  let _ = tokio::time::timeout(Duration::from_secs(10), ctx1.term()).await;
+  tokio::time::sleep(Duration::from_millis(150)).await;
+  // the replacement: different identity, same place
+  let ctx2 = util::new_ctx();
+  let p2 = mk(ctx2.clone(), b"server-two").await;
+  let mut placed = false;
+  for _ in 0..40 {
+    let r = if router_connects { p2.bind(&ep).await } else { p2.connect(&ep).await };
+    if r.is_ok() {
+      placed = true;
+      break;
+    }
+    tokio::time::sleep(Duration::from_millis(100)).await;
+  }
+  if !placed {
+    rep.inconclusive(format!("{}: the replacement could not take the endpoint", cfg));
+    let _ = tokio::time::timeout(Duration::from_secs(10), ctx.term()).await;
+    return;
+  }
+  let mut second_seen = false;
+  for _ in 0..60 {
+    if p2.send_multipart(hello(b"server-two")).await.is_ok() {
+      if let Ok(m) = router.recv_multipart().await {
+        let v = to_vecs(m);
+        if v.first().map(|f| f.as_slice()) == Some(b"server-two") {
+          second_seen = true;
+          break;
+        }
+      }
+    }
+    tokio::time::sleep(Duration::from_millis(50)).await;
+  }
+  rep.case(&("replace", tr, router_connects, util::socket_type_name(peer_kind), mandatory), true);
+  if !second_seen {
+    rep.inconclusive(format!("{}: the replacement peer never got through to the ROUTER", cfg));
+  } else {
+    // to the OLD identity
+    let stale = router.send_multipart(msgs(&[b"server-one".to_vec(), b"for-server-one-only".to_vec()])).await;
+    // to the NEW identity
+    let fresh = router.send_multipart(msgs(&[b"server-two".to_vec(), b"for-server-two".to_vec()])).await;
+    let mut got: Vec<Vec<Vec<u8>>> = vec![];
+    while let Ok(m) = p2.recv_multipart().await {
+      got.push(to_vecs(m));
+      if got.len() >= 4 {
+        break;
+      }
+    }
+    let flat: Vec<&[u8]> = got.iter().flat_map(|m| m.iter().map(|f| f.as_slice())).collect();
+    let leaked = flat.iter().any(|f| *f == b"for-server-one-only");
+    let arrived = flat.iter().any(|f| *f == b"for-server-two");
+    let wit = json!({"config": cfg, "send_to_old_identity": format!("{:?}", stale.as_ref().map_err(|e| util::err_kind(e))), "send_to_new_identity": format!("{:?}", fresh.as_ref().map_err(|e| util::err_kind(e))), "new_peer_received": got.iter().map(|m| m.iter().map(|f| String::from_utf8_lossy(f).to_string()).collect::<Vec<_>>()).collect::<Vec<_>>()});
+    if leaked {
+      rep.violation(format!("message_for_departed_identity_delivered_to_its_replacement|{}", if router_connects { "router_connects" } else { "router_binds" }), format!("{}: a message addressed to \"server-one\" (gone) was received by \"server-two\"; the send returned {:?}", cfg, stale.as_ref().map_err(|e| util::err_kind(e))), wit.clone());
+    } else if mandatory && stale.is_ok() {
+      rep.violation(format!("departed_identity_still_routable|{}", if router_connects { "router_connects" } else { "router_binds" }), format!("{}: send to the departed identity \"server-one\" returned Ok with ROUTER_MANDATORY set", cfg), wit.clone());
+    }
+    if !arrived {
+      rep.violation(format!("message_for_new_identity_not_delivered|{}", if router_connects { "router_connects" } else { "router_binds" }), format!("{}: the message addressed to \"server-two\" did not arrive (send: {:?})", cfg, fresh.as_ref().map_err(|e| util::err_kind(e))), wit);
+    }
+  }
+  let _ = tokio::time::timeout(Duration::from_secs(10), ctx.term()).await;
+  let _ = tokio::time::timeout(Duration::from_secs(10), ctx2.term()).await;
+}
+
 fn main() {
   let args = Args::parse();
   util::install_panic_watch();
   let mut rep = Report::new("C11", &args.shard_name());
   let mut rng = Rng::new(args.seed.wrapping_mul(236887691).wrapping_add(args.shard as u64));
+  if args.only.as_deref() == Some("replace") {
+    let rt = util::runtime(2);
+    let mut i = 0;
+    for tr in [Transport::Tcp, Transport::Ipc] {
+      for router_connects in [true, false] {
+        for peer_kind in [SocketType::Dealer, SocketType::Router] {
+          for mandatory in [true, false] {
+            i += 1;
+            if !args.mine(i) {
+              continue;
+            }
+            if !args.thorough() && tr == Transport::Ipc && peer_kind == SocketType::Router {
+              continue;
+            }
+            util::guarded(&rt, replace_case(&mut rep, tr, router_connects, peer_kind, mandatory));
+          }
+        }
+      }
+    }
+    util::cleanup_ipc_dir();
+    for p in util::take_panics() {
+      if p.in_rzmq {
+        rep.violation(format!("panic|{}", util::panic_site(&p.location)), format!("panic at {}: {}", p.location, p.message), json!({"frames": p.backtrace_head}));
+      } else {
+        rep.inconclusive(format!("harness panic at {}: {}", p.location, p.message));
+      }
+    }
+    rep.merge_hooks();
+    rep.emit();
+    return;
+  }
   if args.only.as_deref() == Some("poll") {
     let rt = util::runtime(4);
     let n = if args.thorough() { 48 } else { 12 };
